@@ -574,5 +574,52 @@ pub fn c14(log: &mut Log, seed: u64, tier: &str) {
                 log.ev(json!({"ev": "Mem", "what": "op", "scenario": format!("{}-k{}{}", op, k, if shared { "-shared" } else { "" }), "n": n, "k": k, "maxKeyLen": KEYLEN, "peak": jn(peak), "allocs": jn(allocs), "items": items}));
             }
         }
+        // a sparse stream (two keys: below and above everything) against dense ones, in first and
+        // in last position: long runs of the dense streams' keys pass while one sparse key waits
+        {
+            let sparse = {
+                let mut b = Builder::memory();
+                b.insert(b"!", 1).unwrap();
+                b.insert(b"~~~~", 2).unwrap();
+                b.into_inner().unwrap()
+            };
+            let dense: Vec<Vec<u8>> = (0..2).map(|j| build_map(n / 2, seed + 300 + j as u64, std::cmp::max(1, (16_000_000 / (n / 2)) as u64 / 2))).collect();
+            for &first in &[true, false] {
+                let mut bytes: Vec<&Vec<u8>> = dense.iter().collect();
+                if first {
+                    bytes.insert(0, &sparse);
+                } else {
+                    bytes.push(&sparse);
+                }
+                let fsts: Vec<Fst<&[u8]>> = bytes.iter().map(|b| Fst::new(&b[..]).unwrap()).collect();
+                for op in &["union", "intersection", "difference", "symmetric_difference"] {
+                    let snap = alloc::begin();
+                    let mut items = 0usize;
+                    {
+                        let mut b = fst::raw::OpBuilder::new();
+                        for f in &fsts {
+                            b.push(f);
+                        }
+                        macro_rules! drain {
+                            ($s:expr) => {{
+                                let mut s = $s;
+                                while let Some(_) = s.next() {
+                                    items += 1;
+                                }
+                            }};
+                        }
+                        match *op {
+                            "union" => drain!(b.union()),
+                            "intersection" => drain!(b.intersection()),
+                            "difference" => drain!(b.difference()),
+                            _ => drain!(b.symmetric_difference()),
+                        }
+                    }
+                    let (_, peak, allocs) = alloc::read(&snap);
+                    log.ev(json!({"ev": "Mem", "what": "op", "scenario": format!("{}-sparse-{}", op, if first { "first" } else { "last" }), "n": n, "k": 3, "maxKeyLen": KEYLEN,
+                                  "peak": jn(peak), "allocs": jn(allocs), "items": items}));
+                }
+            }
+        }
     }
 }
